@@ -174,6 +174,10 @@ func genPair(r *RNG) (s, c clip.Paths64, info GenInfo) {
 	G := grids[r.Intn(len(grids))]
 	info.Grid = G
 	dx, dy := shifts[r.Intn(len(shifts))], shifts[r.Intn(len(shifts))]
+	if r.Intn(4) == 0 && G <= 1000 {
+		// centred on the origin: coordinates of both signs, many vertices exactly on X = 0 or Y = 0
+		dx, dy = -G/2+r.Range(-1, 1), -G/2+r.Range(-1, 1)
+	}
 	// exact rational checking is quadratic in the bit length: large magnitudes
 	// get fewer and smaller polygons (the magnitude-dependent defects seen so
 	// far show on simple shapes; the topological ones on small grids)
